@@ -171,9 +171,34 @@ def generate(g: Gen):
         if isinstance(e, ast.Call) and ast.unparse(e.func) == "bool" and len(e.args) == 1 and isinstance(e.args[0], ast.Attribute) \
                 and ast.unparse(e.args[0].value) == "node" and state["FIELDS"].get(e.args[0].attr, "").endswith("*"):
             return ln(e.args[0].attr)(n) > 0          # bool(node.<list field>): the list is not empty
+        if isinstance(e, ast.Call) and isinstance(e.func, ast.Name) and any(isinstance(x, ast.Name) and x.id == "node" for a in e.args for x in ast.walk(a)):
+            try:
+                find_def("core", e.func.id)
+            except NotGenerated:
+                return ub(ast.unparse(e))
+            # a function of the module applied to the node may inspect its children: not interpreted here
+            raise NotImplementedError("call of a module function on the node: " + ast.unparse(e)[:60])
         if isinstance(e, (ast.Compare, ast.Call)):
             return ub(ast.unparse(e))
         raise NotImplementedError("bool_expr " + ast.unparse(e))
+
+    def inline_helper(body):
+        """a branch that is just `return _helper(node, ...)` (the case was extracted into a private function of the module): analyse the helper's
+        body instead, when it is called with its own parameter names; anything else about such a call is not interpreted -> NotGenerated"""
+        stmts = [x for x in body if not (isinstance(x, ast.Expr) and isinstance(x.value, ast.Constant))]
+        if len(stmts) == 1 and isinstance(stmts[0], ast.Return) and isinstance(stmts[0].value, ast.Call) and isinstance(stmts[0].value.func, ast.Name) \
+                and stmts[0].value.func.id not in ("has_side_effect", "any", "all", "bool", "isinstance"):
+            call = stmts[0].value
+            try:
+                helper, _ = find_def("core", call.func.id)
+            except NotGenerated:
+                raise NotGenerated(f"branch returns the result of `{call.func.id}`, which is not a function of the module")
+            params = [a.arg for a in helper.args.posonlyargs + helper.args.args + helper.args.kwonlyargs]
+            given = [ast.unparse(a) for a in call.args] + [k.arg for k in call.keywords if ast.unparse(k.value) == k.arg]
+            if len(given) != len(call.args) + len(call.keywords) or given != params[:len(given)] or "node" not in given:
+                raise NotGenerated(f"`{call.func.id}` is not called with its own parameter names: cannot inline")
+            return [x for x in helper.body if not (isinstance(x, ast.Expr) and isinstance(x.value, ast.Constant))]
+        return body
 
     # pre-branches of the form `if isinstance(node, T) and <cond>: return True` only add effects: sound, no obligation
     seen = set()
@@ -206,7 +231,7 @@ def generate(g: Gen):
             state["FIELDS"] = asdl(cls)
             env = {}
             ret = None
-            for s2 in st.body:
+            for s2 in inline_helper(st.body):
                 if isinstance(s2, ast.Return):
                     ret = s2.value
                 elif isinstance(s2, ast.If) and isinstance(s2.test, ast.Call) and getattr(s2.test.func, "id", "") == "isinstance":
